@@ -580,6 +580,73 @@ def job_diffusivity_ratio(job, nx):
     job.prove(f"diffusivity-ratio[nx={nx}]/reach", [], expect="sat")
 
 
+def replay_diffusivity_own_table(model, frame="labelled"):
+    """Real FlowProperties built from the falling-diffusivity table as a DataFrame whose integer row labels are a
+    permutation of the row positions (a file stored high-pressure-first and sorted with sort_values, no reset_index) against
+    the same table as a dict of arrays: the scaled diffusivity the reservoir uses, and both recoveries of a run."""
+    import warnings
+    import numpy as np
+    from bluebonnet.flow import FlowProperties, SinglePhaseReservoir
+    df = _falling_table(60)
+    lab = df.iloc[::-1].reset_index(drop=True).sort_values("pressure")      # labels 59..0 in row order
+    with warnings.catch_warnings():
+        warnings.simplefilter("ignore")
+        f_lab = FlowProperties(lab, 5000.0)
+        f_ref = FlowProperties({c: df[c].to_numpy().copy() for c in df.columns}, 5000.0)
+    m = np.linspace(float(f_ref.m_scaled_func(500.0)), float(f_ref.m_i), 9)
+    r_lab, r_ref = SinglePhaseReservoir(20, 500.0, 5000.0, f_lab), SinglePhaseReservoir(20, 500.0, 5000.0, f_ref)
+    got, want = np.asarray(r_lab.alpha_scaled(m), float), np.asarray(r_ref.alpha_scaled(m), float)
+    if got.shape != want.shape or np.any(np.abs(got - want) > 1e-9 * np.abs(want)):
+        return True, {"what": f"scaled diffusivity from a DataFrame table with permuted integer row labels {got.tolist()} vs the same table as a dict of arrays {want.tolist()}",
+                      "inputs": {"table": "z=1, c=1/p, mu~p^2, 60 rows, labels 59..0"}}
+    t = np.linspace(0, 0.6, 61) ** 2
+    r_lab.simulate(t)
+    r_ref.simulate(t)
+    a, b = np.asarray(r_lab.recovery_factor(), float), np.asarray(r_ref.recovery_factor(), float)
+    bad = bool(np.any(np.abs(a - b) > 1e-9 * (1 + np.abs(b))))
+    return bad, {"what": f"flux recovery at the end of the run: labelled frame {a[-1]!r}, dict of arrays {b[-1]!r}", "inputs": {"table": "z=1, c=1/p, mu~p^2, 60 rows"}}
+
+
+def job_diffusivity_own_table(job, frame):
+    """The same statement with the library's own FlowProperties (executed symbolically) as the fluid: at every table node
+    the reservoir's scaled diffusivity is the node's alpha over alpha(m_i) - for a dict of arrays and for a DataFrame whose
+    integer row labels are the reverse of the row positions."""
+    from .c09 import _table, _load as _load_fp, LONG
+    mod = load_reservoir()
+    fpm = _load_fp()
+    job.encoded(mod, "SinglePhaseReservoir.alpha_scaled")
+    job.encoded(fpm, "FlowProperties.__init__")
+    job.stub("scipy.interpolate.interp1d: exact piecewise-linear model")
+    n = 3
+    job.bound(table_rows=n, table_kind=str(frame))
+    tab, ps, dom = _table(n, LONG, frame=frame)
+    import warnings
+    tag = f"diffusivity-own-table[{'labelled frame' if frame == 'labelled' else 'dict'},N={n}]"
+    rp = (replay_diffusivity_own_table, {"frame": frame})
+
+    def run():
+        with warnings.catch_warnings():
+            warnings.simplefilter("ignore")
+            fluid = fpm.FlowProperties(tab, ps[-1])
+        r = mod.SinglePhaseReservoir(Q(n), fresh("pf", pos=True), ps[-1], fluid)
+        ms, al = fluid.pvt_props["m-scaled"], fluid.pvt_props["alpha"]
+        return r.alpha_scaled(SymArray(list(ms.d), "f8")), list(al.d), fluid.alpha(fluid.m_i)
+    res = paths(job, run, dom, max_paths=128, catch=(ValueError, SS.NonMonotoneAbscissae))
+    done = 0
+    for k, pr in enumerate(res):
+        if pr.exc is not None:
+            if isinstance(pr.exc, SS.NonMonotoneAbscissae):
+                job.prove(f"{tag}/scaled pseudopressure not monotone[path{k}]", pr.pc, bound=f"{n} rows", replay=rp)
+            continue
+        got, al, ai = pr.value
+        done += 1
+        job.prove(f"{tag}/alpha_scaled at every node == node's alpha / alpha(m_i)[path{k}]",
+                  pr.pc + [T.b_or(*[not_close(g, a / ai, abs_tol=Fraction(0)) for g, a in zip(got.d, al)])], bound=f"{n} rows", replay=rp)
+        job.prove(f"{tag}/reach[path{k}]", pr.pc, expect="sat")
+    if not done:
+        job.errors.append(f"{tag}: no path constructs the fluid")
+
+
 def job_flux_is_boundary_derivative(job, nx):
     """Shared with C02-L5: the flux-mode recovery is FVF scale x trapezoid-in-time of the exact boundary
     derivative for a quadratic profile - the quantity whose in-place counterpart is the mass change."""
@@ -588,7 +655,7 @@ def job_flux_is_boundary_derivative(job, nx):
 
 
 # concrete replays run on the real code when the changed code uses something the engine does not model (harness.finish)
-FALLBACK = [(replay_diffusivity_ratio, {}), (replay_ceiling_run, {}), (replay_ceiling_run, {"tdtype": "f8"}), (replay_balance_sp, {}), (replay_flux, {}), (replay_flux, {"cls": "IdealReservoir"})]
+FALLBACK = [(replay_diffusivity_ratio, {}), (replay_diffusivity_own_table, {}), (replay_ceiling_run, {}), (replay_ceiling_run, {"tdtype": "f8"}), (replay_balance_sp, {}), (replay_flux, {}), (replay_flux, {"cls": "IdealReservoir"})]
 
 
 def jobs(tier):
@@ -605,6 +672,8 @@ def jobs(tier):
         out.append((f"balance-sp-{nx}", lambda j, n=nx: job_balance_sp(j, n, False)))
         out.append((f"balance-sp-reach-{nx}", lambda j, n=nx: job_balance_sp(j, n, True)))
     out.append(("diffusivity-ratio-3", lambda j: job_diffusivity_ratio(j, 3)))
+    out.append(("diffusivity-own-table-dict", lambda j: job_diffusivity_own_table(j, False)))
+    out.append(("diffusivity-own-table-labelled-frame", lambda j: job_diffusivity_own_table(j, "labelled")))
     out.append(("balance-sp-reused-3", lambda j: job_balance_sp(j, 3, True, True)))
     out.append(("balance-sp-series-time-3", lambda j: job_balance_sp(j, 3, True, False, True)))
     if tier != "quick":
